@@ -56,7 +56,7 @@ func init() {
 	// one run in three is a single-chain history with the broader message mix of the L1 / L2 worlds (several
 	// bridges, long output logs, validator and parameter traffic), restarted from exported genesis at a high rate
 	c16l1 := &l1Profile{Prop: "C16", Reimport: 10, Blocks: [2]int{12, 50}, MaxTx: 5, Crash: 3, Periods: stdPeriods, RegFee: true,
-		W: map[string]int{"burst": 6, "create": 8, "deposit": 20, "propose": 25, "delete": 8, "claim": 25, "updProposer": 3, "updChallenger": 3, "batchInfo": 4, "metadata": 2,
+		W: map[string]int{"burst": 6, "claimburst": 10, "create": 8, "deposit": 20, "propose": 25, "delete": 8, "claim": 25, "updProposer": 3, "updChallenger": 3, "batchInfo": 4, "metadata": 2,
 			"oracleCfg": 1, "params": 1, "recordBatch": 2, "send": 3, "multi": 5},
 		NonTriv: func(w *l1World) bool {
 			return w.r.Faults["restart-from-exported-genesis.L1"] >= 1 && len(w.m.Bridges) >= 1
